@@ -16,6 +16,15 @@ import (
 type Workload struct {
 	Header refmcap.Header
 	Ops    []refmcap.Item
+	// Probes are WriteMessage calls on a channel id that is never registered, issued before the op with
+	// index Before (len(Ops) = before Close). The writer must refuse them; they are not part of the
+	// recorded content, so nothing in the file or its statistics may show them.
+	Probes []Probe
+}
+
+type Probe struct {
+	Before int
+	Msg    refmcap.Message
 }
 
 // Config mirrors mcap.WriterOptions in a serialisable form.
@@ -36,6 +45,13 @@ type Config struct {
 	SkipSummaryOffsets       bool
 	OverrideLibrary          bool
 	SkipMagic                bool
+
+	// CustomShadow: with the caller-supplied compressor, WriterOptions.Compression is also set to this
+	// built-in format; the documented rule is that the supplied compressor takes precedence.
+	CustomShadow string
+	// AttReader selects how attachment data is handed over: 0 bytes.Reader (has WriteTo), 1 a plain
+	// reader that returns its last bytes together with io.EOF, 2 one byte per Read, 3 seven bytes per Read.
+	AttReader int
 }
 
 func (c Config) String() string {
@@ -57,6 +73,12 @@ func (c Config) String() string {
 		if x.b {
 			f = append(f, x.n)
 		}
+	}
+	if c.CustomShadow != "" {
+		f = append(f, "shadow="+c.CustomShadow)
+	}
+	if c.AttReader != 0 {
+		f = append(f, fmt.Sprintf("attreader%d", c.AttReader))
 	}
 	return strings.Join(f, ",")
 }
@@ -117,6 +139,10 @@ func RandConfig(r *rand.Rand) Config {
 	default:
 		c.SetFlags(r.Intn(1024))
 	}
+	if c.Compression == "custom" {
+		c.CustomShadow = []string{"", "zstd", "lz4"}[r.Intn(3)]
+	}
+	c.AttReader = []int{0, 0, 1, 2, 3}[r.Intn(5)]
 	return c
 }
 
@@ -547,6 +573,17 @@ func RandWorkload(r *rand.Rand, s Shape) *Workload {
 				// identical re-writes share the pointer, so they stay identical
 				it.Schema.Data = huge()
 			}
+		}
+	}
+	if s.Rewrites && len(w.Ops) > 2 {
+		// derived from what exists (no draw from r): the lowest channel id that is never registered
+		id := uint16(0)
+		for usedC[id] {
+			id++
+		}
+		w.Probes = []Probe{
+			{Before: len(w.Ops) / 2, Msg: refmcap.Message{ChannelID: id, Sequence: 7, LogTime: 0, PublishTime: 1, Data: []byte("refused")}},
+			{Before: len(w.Ops), Msg: refmcap.Message{ChannelID: id, Sequence: 8, LogTime: math.MaxUint64, Data: []byte("refused too")}},
 		}
 	}
 	return w
